@@ -21,7 +21,10 @@
 (*                            the server) touched it during an earlier use *)
 (*                            that no reset has cleared since, or it is a  *)
 (*                            view of such a component (DependsOn).        *)
-(*  EndConn{conn}             Serve returned: Reset + Put (unless exiled)  *)
+(*  EndConn{conn}             Serve returned: Reset + Put (unless exiled); *)
+(*                            a keep-alive connection with a pipelined     *)
+(*                            probe may end early only if a mutator could  *)
+(*                            have ended it (KeepAliveHonoured)            *)
 (*  Release{conn, obj}        ReleaseX / Args.Reset of a stand-alone object*)
 (*  Touched{m, comps}         measured effect of m: comps within Touch(m)  *)
 (*  Known{m, kinds}           the driver's table entry equals the spec's   *)
@@ -55,18 +58,23 @@ VARIABLES l,        \* next line to consume
           pend,     \* components of the last Probe whose Dirty lines are still to come
           pallow,   \* components that may legitimately differ at that probe
           pkey,     \* <<conn, obj>> of that probe
-          cnt       \* Known lines seen in a cover case
-tvars == <<l, bad, ck, ok, tobj, tslot, pend, pallow, pkey, cnt>>
+          cnt,      \* Known lines seen in a cover case
+          cm,       \* [mode, muts] of the current case
+          probed    \* connection slots on which a probe was served in the current case
+tvars == <<l, bad, ck, ok, tobj, tslot, pend, pallow, pkey, cnt, cm, probed>>
 
 Line == Trace[l]
 Empty == [x \in {} |-> 0]
 Range(s) == {s[i] : i \in DOMAIN s}
 
+NoCase == [mode |-> "", muts |-> << >>]
 Idle == /\ ck' = "" /\ ok' = "" /\ tobj' = Empty /\ tslot' = Empty /\ pend' = << >> /\ pallow' = {} /\ pkey' = <<0, 0>> /\ cnt' = 0
+        /\ cm' = NoCase /\ probed' = {}
 
 TraceInit == /\ kind = "Ctx" /\ obj = [o \in Objs |-> FreshObj] /\ slot = [s \in Slots |-> IdleSlot] /\ nmut = 0 /\ seen = {}
              /\ l = 1 /\ bad = << >>
              /\ ck = "" /\ ok = "" /\ tobj = Empty /\ tslot = Empty /\ pend = << >> /\ pallow = {} /\ pkey = <<0, 0>> /\ cnt = 0
+             /\ cm = NoCase /\ probed = {}
 
 CaseKinds == Kinds \cup {"conc", "touch", "cover"}
 ObjKindOf(c) == IF c.kind \in {"Ctx", "conc"} THEN "Ctx" ELSE IF c.kind = "touch" THEN c.obj ELSE IF c.kind = "cover" THEN "Ctx" ELSE c.kind
@@ -89,6 +97,7 @@ TraceCase ==
   /\ \A i \in DOMAIN Line.muts : Line.muts[i] \in Mutators /\ ObjKindOf(Line) \in MutTable[Line.muts[i]].kinds
   /\ ck' = Line.kind /\ ok' = ObjKindOf(Line)
   /\ tobj' = Empty /\ tslot' = Empty /\ pend' = << >> /\ pallow' = {} /\ pkey' = <<0, 0>> /\ cnt' = 0
+  /\ cm' = [mode |-> IF Line.kind = "Ctx" THEN Line.mode ELSE "", muts |-> Line.muts] /\ probed' = {}
   /\ Step
 
 (* the object is new, or pooled, or (conc) still recorded as held by a connection whose handler has ended *)
@@ -107,13 +116,13 @@ TraceAcquire ==
            /\ rel.st = "pooled"
            /\ SetO(o, AcqObj(ok, rel))
            /\ tslot' = (c :> [st |-> "handler", o |-> o]) @@ (c2 :> [st |-> "early", o |-> 0]) @@ tslot
-  /\ UNCHANGED <<ck, ok, pend, pallow, pkey, cnt>> /\ Step
+  /\ UNCHANGED <<ck, ok, pend, pallow, pkey, cnt, cm, probed>> /\ Step
 
 TraceMutate ==
   /\ Is("Mutate") /\ NoPend /\ SlotSt(Line.conn) = "handler"
   /\ Line.m \in Mutators /\ ok \in MutTable[Line.m].kinds
   /\ LET o == Holder(Line.conn) IN SetO(o, MutObj(ok, tobj[o], Touch(Line.m)))
-  /\ UNCHANGED <<ck, ok, tslot, pend, pallow, pkey, cnt>> /\ Step
+  /\ UNCHANGED <<ck, ok, tslot, pend, pallow, pkey, cnt, cm, probed>> /\ Step
 
 TraceEnding ==
   /\ Is("Ending") /\ NoPend /\ SlotSt(Line.conn) = "handler"
@@ -122,13 +131,13 @@ TraceEnding ==
          extra == IF ok # "Ctx" THEN {} ELSE IF Line.kind = "abort" THEN AbortTouch ELSE IF Line.kind = "panic" THEN PanicTouch ELSE {}
      IN  SetO(o, FinObj(ok, tobj[o], extra))
   /\ SetSlot(Line.conn, [tslot[Line.conn] EXCEPT !.st = "done"])
-  /\ UNCHANGED <<ck, ok, pend, pallow, pkey, cnt>> /\ Step
+  /\ UNCHANGED <<ck, ok, pend, pallow, pkey, cnt, cm, probed>> /\ Step
 
 TraceEndRequest ==
   /\ Is("EndRequest") /\ NoPend /\ ok = "Ctx" /\ SlotSt(Line.conn) = "done"
   /\ LET o == Holder(Line.conn) IN SetO(o, NextReqObj(tobj[o]))
   /\ SetSlot(Line.conn, [tslot[Line.conn] EXCEPT !.st = "handler"])
-  /\ UNCHANGED <<ck, ok, pend, pallow, pkey, cnt>> /\ Step
+  /\ UNCHANGED <<ck, ok, pend, pallow, pkey, cnt, cm, probed>> /\ Step
 
 (* the look itself; the verdict is taken per component on the Dirty lines that follow *)
 TraceProbe ==
@@ -138,48 +147,58 @@ TraceProbe ==
      /\ SetO(o, FinObj(ok, ProbeObj(ok, tobj[o]), {}))
   /\ pend' = Line.dirty /\ pkey' = <<Line.conn, Line.obj>>
   /\ SetSlot(Line.conn, [tslot[Line.conn] EXCEPT !.st = "done"])
-  /\ UNCHANGED <<ck, ok, cnt>> /\ Step
+  /\ probed' = probed \cup {Line.conn}
+  /\ UNCHANGED <<ck, ok, cnt, cm>> /\ Step
 
 DirtyLine == Is("Dirty") /\ pend # << >> /\ Line.comp = pend[1] /\ <<Line.conn, Line.obj>> = pkey
 TraceDirty ==
   /\ DirtyLine /\ Line.comp \in pallow
   /\ pend' = Tail(pend)
-  /\ UNCHANGED <<ck, ok, tobj, tslot, pallow, pkey, cnt>> /\ Step
+  /\ UNCHANGED <<ck, ok, tobj, tslot, pallow, pkey, cnt, cm, probed>> /\ Step
+
+(* In a "same" history the probe is pipelined behind the mutating request on connection 1.  The server may end that
+   connection before serving it only if a mutator touched something that can end a connection (response header or
+   body, hijacking, the request body stream); otherwise the request after the recycling was not served as a fresh
+   context would have served it. *)
+MayEndConn(m) == Touch(m) \cap (Fam("resp.h") \cup Fam("resp.body") \cup Fam("req.body") \cup {"ctx.hijackHandler", "resp.hijackWriter"}) # {}
+KeepAliveHonoured(c) == (ck = "Ctx" /\ cm.mode = "same" /\ c = 1 /\ 1 \notin probed) => \E i \in DOMAIN cm.muts : MayEndConn(cm.muts[i])
 
 TraceEndConn ==
   /\ Is("EndConn") /\ NoPend /\ ok = "Ctx"
   /\ \/ /\ SlotSt(Line.conn) = "done"
+        /\ KeepAliveHonoured(Line.conn)
         /\ LET o == Holder(Line.conn) IN SetO(o, RelObj(ok, tobj[o]))
         /\ SetSlot(Line.conn, [st |-> "idle", o |-> 0])
      \/ /\ SlotSt(Line.conn) = "early"                 \* already released at another connection's Acquire line
         /\ SetSlot(Line.conn, [st |-> "idle", o |-> 0]) /\ UNCHANGED tobj
      \/ /\ SlotSt(Line.conn) = "idle"                  \* Serve returned without having run a handler
         /\ UNCHANGED <<tobj, tslot>>
-  /\ UNCHANGED <<ck, ok, pend, pallow, pkey, cnt>> /\ Step
+  /\ UNCHANGED <<ck, ok, pend, pallow, pkey, cnt, cm, probed>> /\ Step
 
 TraceRelease ==
   /\ Is("Release") /\ NoPend /\ ok # "Ctx" /\ SlotSt(Line.conn) = "done" /\ Holder(Line.conn) = Line.obj
   /\ SetO(Line.obj, RelObj(ok, tobj[Line.obj]))
   /\ SetSlot(Line.conn, [st |-> "idle", o |-> 0])
-  /\ UNCHANGED <<ck, ok, pend, pallow, pkey, cnt>> /\ Step
+  /\ UNCHANGED <<ck, ok, pend, pallow, pkey, cnt, cm, probed>> /\ Step
 
 TraceTouched ==
   /\ Is("Touched") /\ ck = "touch" /\ Line.m \in Mutators
   /\ Range(Line.comps) \subseteq Touch(Line.m)
-  /\ UNCHANGED <<ck, ok, tobj, tslot, pend, pallow, pkey, cnt>> /\ Step
+  /\ UNCHANGED <<ck, ok, tobj, tslot, pend, pallow, pkey, cnt, cm, probed>> /\ Step
 
 TraceKnown ==
   /\ Is("Known") /\ ck = "cover" /\ Line.m \in Mutators /\ Range(Line.kinds) = MutTable[Line.m].kinds
   /\ cnt' = cnt + 1
-  /\ UNCHANGED <<ck, ok, tobj, tslot, pend, pallow, pkey>> /\ Step
+  /\ UNCHANGED <<ck, ok, tobj, tslot, pend, pallow, pkey, cm, probed>> /\ Step
 
 TraceUncovered ==
   /\ Is("Uncovered") /\ ck = "cover" /\ <<Line.type, Line.method>> \in Excluded
-  /\ UNCHANGED <<ck, ok, tobj, tslot, pend, pallow, pkey, cnt>> /\ Step
+  /\ UNCHANGED <<ck, ok, tobj, tslot, pend, pallow, pkey, cnt, cm, probed>> /\ Step
 
 TraceEnd ==
   /\ Is("End") /\ ck # "" /\ NoPend
   /\ ck = "cover" => cnt = Cardinality(Mutators)
+  /\ ck \in Kinds \cup {"conc"} => probed # {}          \* every history ends with a look at a (possibly recycled) object
   /\ \A c \in DOMAIN tslot : tslot[c].st # "handler"
   /\ Idle /\ Step
 
@@ -195,7 +214,7 @@ MismatchDirty ==
   /\ DirtyLine /\ Line.comp \notin pallow
   /\ bad' = Append(bad, l) /\ l' = l + 1
   /\ pend' = Tail(pend)
-  /\ UNCHANGED <<vars, ck, ok, tobj, tslot, pallow, pkey, cnt>>
+  /\ UNCHANGED <<vars, ck, ok, tobj, tslot, pallow, pkey, cnt, cm, probed>>
 
 Mismatch ==
   /\ l <= Len(Trace) /\ ~ENABLED Normal /\ ~DirtyLine
